@@ -4,7 +4,7 @@ CONSTANTS
   NSlots = 2
   Lambdas = {6}
   Scalars = {0, 3, 6}
-  ZSet = {1, 2, 3, 6, 9, 18, 19, 28, 31, 34, 35, 36}
+  ZSet = {1, 2, 3, 6, 9, 18, 31, 35, 36}
 SPECIFICATION Spec
 INVARIANTS Valid C07 C11
 CONSTRAINT ZBound
